@@ -145,6 +145,37 @@ func runC11(c *Ctx) {
 			}
 		}
 	}
+	// ciphertexts shorter than the tag, against the guard on either side, with a non-empty dst: must be an
+	// error without touching anything around the ciphertext
+	for _, p := range paths {
+		for ts := 12; ts <= 16; ts++ {
+			a, err := p.mk(c.rng.Bytes(16), 12, ts)
+			if a == nil || err != nil {
+				continue
+			}
+			for l := 0; l < ts; l++ {
+				for _, side := range []string{"left", "right"} {
+					var ct []byte
+					if side == "left" {
+						ct = gIn.left(l)
+					} else {
+						ct = gIn.right(l)
+					}
+					copy(ct, c.rng.Bytes(l))
+					for _, dl := range []int{0, 5, 16, 40} {
+						dst := append(make([]byte, 0, dl+64), c.rng.Bytes(dl)...)
+						nonce := gNonce.right(12)
+						got := tryFault(func() {
+							if _, err := a.Open(dst, nonce, ct, nil); err == nil {
+								panic("accepted")
+							}
+						})
+						report(fmt.Sprintf("open-short/%s/%s/t%d", p.name, side, ts), fmt.Sprintf("guard open-short path=%s side=%s ct=%d tag=%d dst=%d", p.name, side, l, ts, dl), got, "ok")
+					}
+				}
+			}
+		}
+	}
 	// Block methods: exact 16-byte buffers at the guard, and short-buffer misuse
 	for _, accel := range []bool{true, false} {
 		if accel && !asmOK {
